@@ -552,9 +552,17 @@ def module_state():
             if not isinstance(fn, (ast.FunctionDef, ast.AsyncFunctionDef)):
                 continue
             local = {a.arg for a in fn.args.args + fn.args.kwonlyargs}
+            alias = {}          # local name -> module-level container it was bound to (`x = _TABLE`, `x = _TABLE[k]`)
             for n in ast.walk(fn):
                 if isinstance(n, ast.Assign):
                     local |= {t.id for t in n.targets if isinstance(t, ast.Name)}
+                    b = n.value
+                    while isinstance(b, (ast.Subscript, ast.Attribute)):
+                        b = b.value
+                    if isinstance(n.value, (ast.Name, ast.Subscript)) and isinstance(b, ast.Name) and b.id in modlevel:
+                        for t in n.targets:
+                            if isinstance(t, ast.Name):
+                                alias[t.id] = b.id
             for d in fn.decorator_list:
                 txt = ast.unparse(d)
                 if 'cache' in txt.lower() or 'memo' in txt.lower():
@@ -574,6 +582,9 @@ def module_state():
                         b = b.value
                     if isinstance(b, ast.Name) and b.id in modlevel and b.id not in local:
                         finds.append(f'{fn.name} (line {n.lineno}): {what} module-level container {b.id}')
+                    elif isinstance(b, ast.Name) and b.id in alias:
+                        finds.append(f'{fn.name} (line {n.lineno}): {what} {b.id}, an alias of module-level container '
+                                     f'{alias[b.id]}')
         out[mod] = finds
     return out
 
